@@ -290,8 +290,15 @@ func goVal(m M) interface{} {
 		return nil
 	case "w":
 		var u uint64
-		for _, e := range m["v"].([]interface{}) {
-			u = u<<8 | uint64(num(e))
+		switch a := m["v"].(type) {
+		case []int:
+			for _, e := range a {
+				u = u<<8 | uint64(e)
+			}
+		case []interface{}:
+			for _, e := range a {
+				u = u<<8 | uint64(num(e))
+			}
 		}
 		return int64(u)
 	}
